@@ -18,9 +18,19 @@ CHECKS = {
             "Trusts the 15-line reference grouper and the AST->JSON normaliser in mc/src/astjson.rs. Chains longer than the bound and prefix "
             "forms (not, fail, TRACE, func) as operands are not covered.",
             "DESIGN.md section 4 C02"),
+    "C11": ("exploration",
+            "bounded-exhaustive enumeration of token pairs/triples, string bodies and statement layouts through the real tokenizer/parser "
+            "against an independent maximal-munch reference lexer",
+            "All ordered pairs (x7 separators) and triples (x separator pairs) of the 69-token vocabulary, every string body of length <= 4 over "
+            "11 escape-significant characters and every canonical statement form under every single-gap (thorough: two-gap) layout are run "
+            "through ucglib::tokenizer::tokenize / parse and compared with vf/reflex.py on type, text, byte offset, line and column, and on "
+            "AST identity across layouts. Exhaustive within those bounds.",
+            "Trusts the reference lexer (written from grammar.md; three word-boundary habits of the implementation are pinned, see DESIGN "
+            "C11). Columns are accepted in bytes or characters. Token sequences longer than 3 are covered only through the 33 canonical statements.",
+            "DESIGN.md section 4 C11"),
 }
 
-CLAIMED = ["C02"]
+CLAIMED = ["C02", "C11"]
 
 NOT_YET = "check not built yet in this round; design in DESIGN.md section 4 (bounded-exhaustive enumeration applies)"
 
